@@ -28,17 +28,20 @@
 //!   "kmv":  in = [k, shape, [[lifted, [elem..]]..]]  elements are u64 (< 2^62); one accumulator
 //!          per part (lifted 1 = build_from_group, 0 = create + add_input), merged
 //!          shape 0 = left to right into the first, 1 = right to left, 2 = balanced tree;
-//!          out = ["ok", [estimate, [[rank..]..]]]  rank = DefaultHasher(elem) as f64 / 2^64
+//!          out = ["ok", [estimate, [[rank..]..], plain]]  rank = DefaultHasher(elem) as f64 / 2^64
+//!          (used on the AGREEMENT side only); plain = the real combiner on the distinct elements,
+//!          ascending, one accumulator, add_input only (the PROPERTY side compares with it: the
+//!          property names no hash function)
 //!   "kmvp": in = [k, [elem..], parts]        approx_distinct_count(k); out as "kmv" (one part)
 //!   "kmvs": as "kmvp" for big inputs: elements and ranks travel in chunks of <= 4000
 //!          (in = [k, [[elem..]..], parts], out = ["ok", [estimate, [[rank..]..]]]) because coqc's
 //!          parser overflows its stack on a single list literal of 10^5 elements
 //!   "kmvk": in = [k, [[key, elem]..], parts] approx_distinct_count_per_key(k);
-//!          out = ["ok", [[[key, estimate]..] sorted, [rank per pair..]]]
+//!          out = ["ok", [[[key, estimate]..] sorted, [rank per pair..], [[key, plain]..]]]
 //! compact streams (big cases): segs = [[key, start, step, count, modulus]..]; segment = the
 //!          integers (start + step*j) mod modulus, j = 0..count (modulus 0: none), under `key`
 //!   "kh":  in = [k, segs, parts, fan]  every public entry point that builds a KMV sketch on the
-//!          same u64 data; out = ["ok", [adc, cg, cgl, adck, cv, gbkl, cvl, twin, dst, dstk, dir, adck2]]
+//!          same u64 data; out = ["ok", [adc, cg, cgl, adck, cv, gbkl, cvl, twin, dst, dstk, dir, adck2, plain, kplain]]
 //!          (see Corr/C15.v check_kh); no ranks travel: Coq hashes the elements itself
 //!   "qh":  in = [comb, c, segs, qs, parts, fan, den, vtype]  every public entry point that builds
 //!          a t-digest on the same data (value = integer / den as vtype f64 | f32 | i32 | u16);
@@ -191,6 +194,21 @@ where
     }
 }
 
+/// the plain run the property compares everything with: every distinct element once, in
+/// ascending order, one accumulator, create + add_input, finish -- no duplicates, no partitions,
+/// no merge (whatever hash function the sketch uses, its answer for a SET of elements is this)
+fn kmv_plain(k: usize, elems: &[u64]) -> f64 {
+    let mut e: Vec<u64> = elems.to_vec();
+    e.sort_unstable();
+    e.dedup();
+    let comb = KMVApproxDistinctCount::<u64>::new(k);
+    let mut a = comb.create();
+    for x in e {
+        comb.add_input(&mut a, x);
+    }
+    comb.finish(a)
+}
+
 fn run(kind: &str, input: &Value) -> Value {
     match kind {
         "td" | "tdx" | "tdw" => {
@@ -317,13 +335,15 @@ fn run(kind: &str, input: &Value) -> Value {
                 accs.push(acc);
             }
             let acc = merge_shape(&comb, accs, shape);
-            ok(json!([fj(comb.finish(acc)), ranks]))
+            let all: Vec<u64> = input[2].as_array().unwrap().iter().flat_map(|p| u64s(&p[1])).collect();
+            ok(json!([fj(comb.finish(acc)), ranks, fj(kmv_plain(k, &all))]))
         }
         "kmvp" => {
             let k = input[0].as_u64().unwrap() as usize;
             let elems = u64s(&input[1]);
             let parts = input[2].as_u64().unwrap() as usize;
             let ranks = fjs(&elems.iter().map(|&e| rank_of(e)).collect::<Vec<_>>());
+            let plain = kmv_plain(k, &elems);
             let p = Pipeline::default();
             let out = from_vec(&p, elems).approx_distinct_count(k);
             let res: Vec<f64> =
@@ -332,7 +352,7 @@ fn run(kind: &str, input: &Value) -> Value {
             if res.len() != 1 {
                 return json!(["err", "not-one-output"]);
             }
-            ok(json!([fj(res[0]), [ranks]]))
+            ok(json!([fj(res[0]), [ranks], fj(plain)]))
         }
         "kmvs" => {
             let k = input[0].as_u64().unwrap() as usize;
@@ -343,6 +363,7 @@ fn run(kind: &str, input: &Value) -> Value {
                 .map(|c| fjs(&c.iter().map(|&e| rank_of(e)).collect::<Vec<_>>()))
                 .collect();
             let elems: Vec<u64> = chunks.into_iter().flatten().collect();
+            let plain = kmv_plain(k, &elems);
             let p = Pipeline::default();
             let out = from_vec(&p, elems).approx_distinct_count(k);
             let res: Vec<f64> =
@@ -351,7 +372,7 @@ fn run(kind: &str, input: &Value) -> Value {
             if res.len() != 1 {
                 return json!(["err", "not-one-output"]);
             }
-            ok(json!([fj(res[0]), ranks]))
+            ok(json!([fj(res[0]), ranks, fj(plain)]))
         }
         "kmvk" => {
             let k = input[0].as_u64().unwrap() as usize;
@@ -363,6 +384,7 @@ fn run(kind: &str, input: &Value) -> Value {
                 .collect();
             let parts = input[2].as_u64().unwrap() as usize;
             let ranks = fjs(&kvs.iter().map(|&(_, e)| rank_of(e)).collect::<Vec<_>>());
+            let kvs2 = kvs.clone();
             let p = Pipeline::default();
             let out = from_vec(&p, kvs).approx_distinct_count_per_key(k);
             let mut res: Vec<(i64, f64)> =
@@ -370,7 +392,14 @@ fn run(kind: &str, input: &Value) -> Value {
                     .expect("collect");
             res.sort_by_key(|kv| kv.0);
             let rj: Vec<Value> = res.iter().map(|&(k, e)| json!([k, fj(e)])).collect();
-            ok(json!([rj, ranks]))
+            let pj: Vec<Value> = res
+                .iter()
+                .map(|&(key, _)| {
+                    let mine: Vec<u64> = kvs2.iter().filter(|kv| kv.0 == key).map(|kv| kv.1).collect();
+                    json!([key, fj(kmv_plain(k, &mine))])
+                })
+                .collect();
+            ok(json!([rj, ranks, pj]))
         }
         "kh" => run_kh(input),
         "qh" => run_qh(input),
@@ -478,11 +507,19 @@ fn run_kh(input: &Value) -> Value {
         })
         .collect();
     let dir = comb.finish(merge_shape(&comb, accs, fan as u64 % 3));
+    let plain = kmv_plain(k, &elems);
+    let kplain: Vec<(i64, f64)> = keys
+        .iter()
+        .map(|&key| {
+            let mine: Vec<u64> = pairs.iter().filter(|kv| kv.0 == key).map(|kv| kv.1).collect();
+            (key, kmv_plain(k, &mine))
+        })
+        .collect();
     let dst = collect(from_vec(&p, elems).distinct(), parts).len();
     let dk = collect(from_vec(&p, pairs).distinct_per_key(), parts);
     let dstk: Vec<Value> =
         keys.iter().map(|&key| json!([key, dk.iter().filter(|kv| kv.0 == key).count()])).collect();
-    ok(json!([fj(adc), fj(cg), fj(cgl), kests(adck), kests(cv), kests(gbkl), kests(cvl), kests(twin), dst, dstk, fj(dir), kests(adck2)]))
+    ok(json!([fj(adc), fj(cg), fj(cgl), kests(adck), kests(cv), kests(gbkl), kests(cvl), kests(twin), dst, dstk, fj(dir), kests(adck2), fj(plain), kests(kplain)]))
 }
 
 /// the five pipeline entry points for one t-digest combiner over values of type V
@@ -1236,9 +1273,13 @@ fn gen_light(seed: u64, tier: Tier, em: &mut Out) {
     // ---- 9. sampled rank error (statistical claim; sampled, not proved)
     let stat: Vec<(u64, f64, u64)> = if thorough {
         vec![(500, 100.0, 1), (1000, 100.0, 3), (2000, 20.0, 4), (10_000, 100.0, 1), (10_000, 100.0, 7),
-             (30_000, 100.0, 16), (100_000, 100.0, 8), (100_000, 1000.0, 64), (50_000, 20.0, 5)]
+             (30_000, 100.0, 16), (100_000, 100.0, 8), (100_000, 1000.0, 64), (50_000, 20.0, 5),
+             (10_000, 100.0, 1), (16_421, 20.0, 1), (12_000, 50.0, 1), (40_000, 100.0, 1), (100_003, 200.0, 1)]
     } else {
-        vec![(500, 100.0, 1), (1000, 100.0, 3), (10_000, 100.0, 4), (20_000, 100.0, 16)]
+        // parts = 1: the digest that reaches finish() has never been merged, so it still carries
+        // the uncompressed tail of the last adds
+        vec![(500, 100.0, 1), (1000, 100.0, 3), (10_000, 100.0, 4), (20_000, 100.0, 16), (10_000, 100.0, 1),
+             (16_421, 20.0, 1), (12_000, 50.0, 1)]
     };
     for (n, c, parts) in stat {
         // a coprime with n: an odd number not divisible by 5 (n is of the form 2^x 5^y 3^z...)
